@@ -1,0 +1,101 @@
+//go:build verif
+
+package proxy
+
+import (
+	"context"
+	"net"
+	"time"
+
+	"go.minekube.com/gate/pkg/edition/java/netmc"
+	"go.minekube.com/gate/pkg/edition/java/profile"
+	"go.minekube.com/gate/pkg/edition/java/proto/packet"
+	"go.minekube.com/gate/pkg/edition/java/proto/state"
+	"go.minekube.com/gate/pkg/edition/java/proxy/phase"
+	"go.minekube.com/gate/pkg/gate/proto"
+	"go.minekube.com/gate/pkg/internal/verifhook"
+)
+
+// Exports for the external verification harness of the player registry (C11) and
+// the listing APIs (C12). Thin constructors and wrappers only: no logic lives here.
+
+// VerifLogin is a client connection that has passed the initial login phase
+// (handshake, login start, authentication) and is about to complete its login:
+// a real netmc.MinecraftConn over the given net.Conn plus the real
+// authSessionHandler, exactly as initialLoginSessionHandler creates them.
+type VerifLogin struct {
+	conn netmc.MinecraftConn
+	h    *authSessionHandler
+}
+
+// VerifNewLogin builds the connection and its (not yet active) auth session handler.
+func VerifNewLogin(p *Proxy, raw net.Conn, prof *profile.GameProfile, onlineMode bool, protocol proto.Protocol) *VerifLogin {
+	conn, _ := netmc.NewMinecraftConn(context.Background(), raw, proto.ServerBound,
+		time.Duration(p.config().ReadTimeout)*time.Millisecond,
+		time.Duration(p.config().ConnectionTimeout)*time.Millisecond,
+		p.config().Compression.Level, nil)
+	conn.SetProtocol(protocol)
+	conn.SetType(phase.Vanilla)
+	inbound := newLoginInboundConn(newInitialInbound(conn, raw.LocalAddr(), packet.LoginHandshakeIntent))
+	h := newAuthSessionHandler(inbound, prof, onlineMode, "", &sessionHandlerDeps{
+		proxy:          p,
+		registrar:      p,
+		configProvider: p,
+		eventMgr:       p.event,
+		authenticator:  p.authenticator,
+		loginsQuota:    p.loginsQuota,
+	}).(*authSessionHandler)
+	return &VerifLogin{conn: conn, h: h}
+}
+
+// Activate makes the auth session handler the active one, which runs the login
+// completion (canRegisterConnection, LoginEvent, registerConnection, LoginSuccess),
+// as initialLoginSessionHandler does after authentication.
+func (l *VerifLogin) Activate() { l.conn.SetActiveSessionHandler(state.Login, l.h) }
+
+// Close closes the client connection (runs the active session handler's Disconnected).
+func (l *VerifLogin) Close() error { return l.conn.Close() }
+
+// Closed reports whether the connection has been closed.
+func (l *VerifLogin) Closed() bool { return netmc.Closed(l.conn) }
+
+// Player returns the connectedPlayer created by the login, or nil.
+func (l *VerifLogin) Player() Player {
+	if l.h.connectedPlayer == nil {
+		return nil
+	}
+	return l.h.connectedPlayer
+}
+
+// VerifNewPlayer returns a bare connectedPlayer over a real MinecraftConn on raw.
+func VerifNewPlayer(p *Proxy, raw net.Conn, prof *profile.GameProfile, onlineMode bool, protocol proto.Protocol) Player {
+	l := VerifNewLogin(p, raw, prof, onlineMode, protocol)
+	return newConnectedPlayer(l.conn, prof, raw.LocalAddr(), packet.LoginHandshakeIntent, onlineMode, nil, l.h.sessionHandlerDeps)
+}
+
+// VerifCanRegister is Proxy.canRegisterConnection.
+func (p *Proxy) VerifCanRegister(pl Player) bool {
+	return p.canRegisterConnection(pl.(*connectedPlayer))
+}
+
+// VerifRegister is Proxy.registerConnection.
+func (p *Proxy) VerifRegister(pl Player) bool { return p.registerConnection(pl.(*connectedPlayer)) }
+
+// VerifUnregister is Proxy.unregisterConnection.
+func (p *Proxy) VerifUnregister(pl Player) bool { return p.unregisterConnection(pl.(*connectedPlayer)) }
+
+// VerifTeardown is connectedPlayer.teardown.
+func VerifTeardown(pl Player) { pl.(*connectedPlayer).teardown() }
+
+// VerifServerPlayersAdd is registeredServer.players.add.
+func VerifServerPlayersAdd(rs RegisteredServer, pl Player) {
+	rs.(*registeredServer).players.add(pl.(*connectedPlayer))
+}
+
+// VerifServerPlayersRemove is registeredServer.players.remove.
+func VerifServerPlayersRemove(rs RegisteredServer, pl Player) {
+	rs.(*registeredServer).players.remove(pl.(*connectedPlayer))
+}
+
+// VerifYield is a schedule point the harness can place between two of its own calls.
+func VerifYield(name string) { verifhook.Point(name) }
